@@ -605,6 +605,27 @@ Theorem c06_rtp_opus_clock_pinned_refuted :
 Proof. split; vm_compute; reflexivity. Qed.
 Print Assumptions c06_rtp_opus_clock_pinned_refuted.
 
+(* onMetaData only guides the analysis: once the SDP has been handed out a metadata message changes nothing - in
+   particular not the payload type and the clock rate the audio packer, created at the first audio frame, is given
+   (so every RTP time stamp runs at the rate the SDP announces: c06_rtp_aac / c06_rtp_raw with the rate of the SDP) *)
+Theorem c06_rtsp_metadata_after_sdp : forall b64 hex tool s a r,
+  q_done s = true -> feed_rtmp_msg b64 hex tool true s (RMeta a r) = (s, []).
+Proof. intros b64 hex tool s a r H. cbn [feed_rtmp_msg andb]. now rewrite H. Qed.
+Print Assumptions c06_rtsp_metadata_after_sdp.
+
+(* ... where the pinned tree took it at any time: metadata names G.711 A-law at 8000 Hz, the video sequence header ends
+   the analysis (SDP: PCMA/8000), a second onMetaData says 44100, then the first audio frame creates the packer: the
+   frame at 23 ms went out with RTP time stamp 1014 (44100 Hz) instead of 184; likewise a later audiocodecid switched
+   the payload type away from the one the SDP announces *)
+Definition meta_after_sdp_witness : list rin :=
+  [RMeta (Some 7) (Some 8000%Z); RMsg f23_vsh; RMeta (Some 7) (Some 44100%Z);
+   RMsg (mk_rmsg 8 0 [114; 1; 2; 3]); RMsg (mk_rmsg 8 23 [114; 4; 5; 6])].
+Theorem c06_rtsp_metadata_after_sdp_pinned_refuted :
+  last_rtp_ts (run_rtsp_pinned (fun x => x) (fun x => x) [] meta_after_sdp_witness) = Some 1014
+  /\ last_rtp_ts (run_rtsp (fun x => x) (fun x => x) [] meta_after_sdp_witness) = Some 184.
+Proof. split; vm_compute; reflexivity. Qed.
+Print Assumptions c06_rtsp_metadata_after_sdp_pinned_refuted.
+
 (* ======================================================================== *)
 (* non-vacuity: a stream of an AVC sequence header, an AAC sequence header, a
    key frame with an in-band AUD, two AAC frames and Dispose meets the
